@@ -256,6 +256,12 @@ def run_recv(shape, dec, props, closures=None):
             ex.assume(f)
         if 'min_recv_id' in W.me.f:
             W.me.f['min_recv_id'] = h
+        # snapshot (immutable z3 terms) of what every synchronized source holds at entry: C03.no_loss(held) compares it with what is held when assembling begins
+        W.held0 = {}
+        for k_, s in enumerate(W.senders):
+            if not s.f['ephemeral']:
+                i0, d0 = opt_parts(s.f['recvd'])
+                W.held0[k_] = (i0, SDict(d0.keys, d0.vals))
         ex.cover('entered after a timed-out call')
     if shape.state == 'none':
         state = None
@@ -302,6 +308,28 @@ def run_recv(shape, dec, props, closures=None):
     # append-only ghost log whose obligations are per entry or bounded by push_mark (requests of the returning iteration)
     HK = (('subsock', 'incoming'), ('pushsock', 'log'))
 
+    first = [True]
+
+    def entry_clauses(env):
+        """clauses about the state the real prefix of recv() leaves: added to the FIRST invariant evaluation of the call only, which is the assertion on entry of the first loop
+        reached from the prefix (asserted there, never assumed)"""
+        if not first[0]:
+            return []
+        first[0] = False
+        out = []
+        if shape.entry == 'held' and getattr(W, 'held0', None):
+            h_, m_now = z3.Int('held_id'), env.lookup('min_recv_id')
+            out.append(('C03.no_loss(held): a call entered after a timed-out one, whose held frames are not older than the id wanted now, continues with the held id',
+                        z3.Implies(h_ >= W.m_entry, zi(m_now) == h_)))
+            th = z3.Const('th_held', Topic)     # a fresh constant of the goal: proving it for an arbitrary topic is proving it for all
+            for k_, (i0, d0) in W.held0.items():
+                had = z3.And(z3.Not(i0), d0.keys[th], d0.vals[th] != OptMsg.none)
+                inone, d = opt_parts(W.senders[k_].f['recvd'])
+                kept = z3.Not(had) if d is None else z3.Implies(had, z3.And(z3.Not(inone), d.keys[th], d.vals[th] == d0.vals[th]))
+                out.append((f'C03.no_loss(held, source{k_}): frames a synchronized source delivered before a timed-out call, of an id not older than the one wanted now, are still held '
+                            'when assembling begins (the publisher will not send them again: dropping them loses that frame at the join)', z3.Implies(h_ >= W.m_entry, kept)))
+        return out
+
     class L1:      # while True (recv)
         heap_keeps = HK
         keeps = ('timeout',) if (timeout is None and timeout_only_assigned_when_not_none()) else ()
@@ -309,7 +337,7 @@ def run_recv(shape, dec, props, closures=None):
         @staticmethod
         def inv(ex_, env):
             got = env.lookup('got_all')
-            return W.inv(env) + [(f'got_all implies {n}', z3.Implies(zb(got), f)) for n, f in W.complete()]
+            return W.inv(env) + [(f'got_all implies {n}', z3.Implies(zb(got), f)) for n, f in W.complete()] + entry_clauses(env)
 
         @staticmethod
         def havoc(ex_, env):
@@ -324,7 +352,7 @@ def run_recv(shape, dec, props, closures=None):
 
         @staticmethod
         def inv(ex_, env):
-            return W.inv(env)
+            return W.inv(env) + entry_clauses(env)
 
         @staticmethod
         def havoc(ex_, env):
@@ -341,7 +369,7 @@ def run_recv(shape, dec, props, closures=None):
         @staticmethod
         def inv(ex_, env):
             socks = env.lookup('socks')
-            return W.inv(env, socks.f['pend'] if isinstance(socks, Obj) else None)
+            return W.inv(env, socks.f['pend'] if isinstance(socks, Obj) else None) + entry_clauses(env)
 
         @staticmethod
         def havoc(ex_, env):
